@@ -74,6 +74,27 @@ def gen_seq(rng, tier):
                 ops.append("c ends")
         ops.append("c ends")
         cases.append(Case("cluster-%d" % i, ops, True, "random"))
+    # the same on real ConfigActors: the leader draws through the actor, every node applies the committed ConfigAdd with
+    # its real set_config (same content re-published or changed), restart = log replay or snapshot load
+    for i in range(600 if big else 80):
+        n = rng.randrange(1, 4)
+        ops = ["r new %d" % n]
+        leader = rng.randrange(n)
+        for _ in range(rng.randrange(3, 30)):
+            r = rng.random()
+            if r < 0.55:
+                ops.append("r issue %d %s %s" % (leader, rng.choice(["a", "a", "b", "c"]), rng.choice(["same", "new", "new"])))
+            elif r < 0.62:
+                # run to the end of the 100-id batch so that the next draw announces a new one
+                ops += ["r issue %d %s new" % (leader, rng.choice(["a", "b"]))] * rng.choice([99, 100, 101])
+            elif r < 0.8:
+                leader = rng.randrange(n)
+            elif r < 0.95:
+                ops.append("r restart %d %s" % (rng.randrange(n), rng.choice(["snap", "replay"])))
+            else:
+                ops.append("r ends")
+        ops.append("r ends")
+        cases.append(Case("actors-%d" % i, ops, True, "random"))
     return cases
 
 
